@@ -828,6 +828,30 @@ pub fn repl_sessions(sh: &mut Shard, class: &str, only: Option<&[String]>, compa
         lines.push("teller".to_string());
         sessions.push(lines);
     }
+    // a session with a line that is not text (not UTF-8): the line is reported, the session goes on
+    if only.is_none() && sh.mine() {
+        sh.begin(&|| "interactive prompt: a line that is not UTF-8".to_string());
+        sh.count("family:repl-sessions");
+        for (bname, exe) in [("unoptimised", &dev), ("release", &rel)] {
+            let spawned = Command::new("sh").arg("-c").arg("exec timeout -s KILL 20 \"$0\"").arg(exe).stdin(Stdio::piped()).stdout(Stdio::piped()).stderr(Stdio::piped()).spawn();
+            if let Ok(mut child) = spawned {
+                {
+                    let mut stdin = child.stdin.take().expect("stdin");
+                    let _ = stdin.write_all(b"stel a = 1\n\xff\xfe\na + 1\n\"\xc3\"\na + 2\n");
+                }
+                if let Ok(out) = child.wait_with_output() {
+                    let stdout = String::from_utf8_lossy(&out.stdout).to_string();
+                    if out.status.code() != Some(0) || !stdout.contains("2\n") || !stdout.contains("3\n") {
+                        sh.violation(
+                            class,
+                            json!({"repl_bytes": "stel a = 1 / ff fe / a + 1 / \" c3 \" / a + 2", "build": bname}),
+                            format!("the {bname} prompt did not survive a line that is not UTF-8: {:?}, output {stdout:?}, stderr {:?}", out.status, String::from_utf8_lossy(&out.stderr).chars().take(200).collect::<String>()),
+                        );
+                    }
+                }
+            }
+        }
+    }
     if let Some(o) = only {
         sessions = vec![o.to_vec()];
     }
